@@ -324,6 +324,12 @@ def render(shape) -> Rendered:
                     u, set(entries), set(d["blocks"]), [name_sym]
                 )
             )
+    # PE safe exception handlers: the listed code blocks (section 0, by index) are handlers
+    if shape.get("seh"):
+        hs = {r.blocks[0][i - 1] for i in shape["seh"]
+              if i - 1 < len(r.blocks[0]) and isinstance(r.blocks[0][i - 1], gtirb.CodeBlock)}
+        if hs:
+            _auxdata.pe_safe_exception_handlers.get_or_insert(m).update(hs)
     if shape.get("drop_fn_tables") and not fns:
         # a module that carries no function aux data at all
         for name in ("functionBlocks", "functionEntries", "functionNames"):
